@@ -183,6 +183,25 @@ pub fn do_decode(chunks: Vec<Vec<u8>>) -> Result<Vec<Item>, String> {
     })
 }
 
+/// the same stream with every byte already in the buffer when `MessageCodec::decode` is first called (what a reader
+/// whose buffer has grown sees): decode until it asks for more or fails, as FramedRead does at the end of a stream
+pub fn do_decode_direct(whole: &[u8]) -> Result<Vec<Item>, String> {
+    let whole = whole.to_vec();
+    catch(move || {
+        let mut buf = BytesMut::from(&whole[..]);
+        let mut items = vec![];
+        loop {
+            match tokio_util::codec::Decoder::decode(&mut MessageCodec, &mut buf) {
+                Ok(Some(f)) => items.push(Item::F(f)),
+                Ok(None) => { if !buf.is_empty() { items.push(Item::E("bytes remaining on stream".into())); } break; }
+                Err(e) => { items.push(Item::E(err_class(&e))); break; }
+            }
+            if items.len() > 100_000 { break; }
+        }
+        items
+    })
+}
+
 pub fn items_text(items: &[Item]) -> String {
     let mut out = String::new();
     for i in items {
@@ -367,6 +386,13 @@ fn case_wdec(out: &mut Out, chunks: Vec<Vec<u8>>, expect: Option<&[Frame]>, tag:
                 match do_decode(vec![whole.clone()]) {
                     Ok(one) => if one != items { m = Err(format!("decoded sequence depends on chunking: {} items chunked vs {} whole", items.len(), one.len())); },
                     Err(p) => m = Err(format!("panicked on the whole stream: {p}")),
+                }
+            }
+            // … and against every byte being in the decoder's buffer from the start
+            if m.is_ok() {
+                match do_decode_direct(&whole) {
+                    Ok(direct) => if direct != items { m = Err(format!("decoded sequence depends on how much of the stream is buffered when decode() is called: {} vs {}", items_text(&direct).chars().take(80).collect::<String>(), items_text(&items).chars().take(80).collect::<String>())); },
+                    Err(p) => m = Err(format!("MessageCodec::decode panicked on the whole buffer: {p}")),
                 }
             }
             if let (Ok(()), Some(fs)) = (&m, expect) {
